@@ -3,6 +3,7 @@ the controller dictates (TLC's interleavings), blocked-thread exactness, and a f
 CPython 3.11+ only for the snapshot part (the guarded probes live in _lowlevel_cpython_311).
 usage: thread_driver.py <mode> <in.json> <out.json>     mode: snapshot | f10 | unwrap | blocked | stress"""
 import json
+import os
 import sys
 import threading
 import time
@@ -427,7 +428,9 @@ def mode_blocked(data):
 
                 def level(k):
                     if k <= nm:
-                        m = CM(k)
+                        # managers written in Python and managers implemented in C (whose bound __exit__ on the value
+                        # stack is a builtin method, not a types.MethodType), in rotation
+                        m = [CM(k), threading.Lock(), threading.RLock(), open(os.devnull)][(k + depth) % 4]
                         mgrs.append(m)
                         with m:
                             return level2(k)
